@@ -242,6 +242,53 @@ func §gen() ITER[int] GEN[int]{
 	RETNIL
 }GEN
 `+StdEntry, "panic:explicit", "range:type-param"),
+		G("panic-from-blank-assignments", `
+xs := []int{1, 2, 3}
+var p *int
+var v any = "s"
+a, b := 6, tr.Zero()
+i := tr.N(1, 5)
+YIELD(100)
+switch i {
+case 0:
+	_ = xs[len(xs)+1]
+case 1:
+	_ = *p
+case 2:
+	_ = v.(int)
+case 3:
+	_ = a / b
+default:
+	_ = xs[1]
+}
+YIELD(tr.V(2, 200+i))
+_ = xs[i:][2]
+YIELD(300)
+RETNIL`, "panic:index", "panic:blank-assign"),
+		Raw("panic-after-break-behind-yield-in-tail-switch", `
+func §tail(x int) ITER[int] GEN[int]{
+	YIELD(0)
+	switch {
+	case x > 0:
+		if tr.B(1) {
+			YIELD(3)
+			break
+		}
+		if x < 5 {
+			panic(tr.V(2, "x must be at least 5"))
+		}
+		YIELD(9)
+	default:
+		YIELD(-1)
+	}
+	RETNIL
+}GEN
+func §gen() ITER[int] GEN[int]{
+	YFROM(§tail(tr.N(3, 3) * 4))
+	YIELD(77)
+	RETNIL
+}GEN
+`+StdEntry, "panic:explicit", "break-behind-yield-in-tail-switch"),
 		G("panic-nil-func-call", `
 var f func() int
 YIELD(1)
